@@ -378,7 +378,7 @@ pub fn run_op(op: &str, a: &[Tok]) -> String {
             let mut acc = ElGamalCiphertext::<C> { c1: tok_pk(&l[0]), c2: tok_pk(&l[1]) };
             // the sum through every spelling of `+` / `+=` (values and references): all must agree
             let (mut a2, mut a3, mut a4) = (acc.clone(), acc.clone(), acc.clone());
-            let mut a5 = acc.clone();
+            let (mut a5, mut a6) = (acc.clone(), acc.clone());
             for c in l[2..].chunks(2) {
                 let x = ElGamalCiphertext::<C> { c1: tok_pk(&c[0]), c2: tok_pk(&c[1]) };
                 acc = acc + x.clone();
@@ -386,11 +386,12 @@ pub fn run_op(op: &str, a: &[Tok]) -> String {
                 a3 = a3 + &x;
                 a4 += x.clone();
                 a5 += &x;
+                a6 = &a6 + x.clone();
             }
             let f = |c: &ElGamalCiphertext<C>| format!("{}:{}", hexpt(&c.c1), hexpt(&c.c2));
             let r = f(&acc);
-            if f(&a2) != r || f(&a3) != r || f(&a4) != r || f(&a5) != r {
-                format!("forms_differ:{}|{}|{}|{}|{}", r, f(&a2), f(&a3), f(&a4), f(&a5))
+            if f(&a2) != r || f(&a3) != r || f(&a4) != r || f(&a5) != r || f(&a6) != r {
+                format!("forms_differ:{}|{}|{}|{}|{}|{}", r, f(&a2), f(&a3), f(&a4), f(&a5), f(&a6))
             } else {
                 r
             }
